@@ -6,7 +6,9 @@ shortcuts, dangling Parent values) is written in several line orders; each order
 For every stored feature and level in {1, 2, None} the ids returned by the real children()/parents() are compared as
 multisets with the reference model (gvmon/models/hierarchy.py: L1 = Parent edges, L2 = L1 o L1), the relations table is
 read with plain sqlite3 and compared with the model, query arguments are composed with a brute-force filter, and the
-relation sets of all orders of one graph must coincide.
+relation sets of all orders of one graph must coincide.  After that several generators of the same FeatureDB are
+kept alive at once (nested loops, zip, random schedules): each must yield what it yields alone.  A separate "wide"
+class has one feature with more than 1000 direct children, the last of which have children themselves.
 """
 import os
 import random
@@ -24,12 +26,25 @@ RULE = ("GFF3 annotation graphs: DAGs of 1-4 layers and <= 12 lines, every line 
         "[quick: a sample of the graphs; thorough: all of them, plus a sample of the 6-line graphs]). Word-like ids ([A-Za-z0-9_.:-]) form the main class; "
         "a separate 'hostile id' class renames 1-3 ids to ones with blanks inside / at the ends, non-ASCII characters, "
         "U+0085/U+00A0 or percent-escaped TAB/LF. non-trivial = >= 1 multi-parent line or >= 1 level-2 pair or a dangling "
-        "Parent value; distinct = canonical edge list + line order")
+        "Parent value; distinct = canonical edge list + line order.  'wide' class: one gene with 1005-1100 direct children "
+        "(a few also name a second gene), 6-9 of them - most numbered >= 1000 - with 1-3 children of their own (some of which "
+        "also name the gene: shortcut, or a second transcript), one feature below an exon; written forward and reversed or "
+        "shuffled; every feature is queried.  'interleaved generators' (every import): a nested loop children(x,1) -> "
+        "children(t,1)/parents(t) and two schedules (zip-like round robin or random) over 2-4 live children()/parents() "
+        "generators of the one FeatureDB; each generator is compared with the same call consumed alone with list() and with "
+        "the model")
 REQUIRED = ["imports", "children()/parents() calls compared with the model", "relation rows compared",
             "level-2 rows compared", "argument-composition queries compared", "iter_by_parent_childs groups compared",
-            "line-order pairs with identical relation sets", "dangling Parent values (no error, no phantom)"]
+            "line-order pairs with identical relation sets", "dangling Parent values (no error, no phantom)",
+            "shortcut relatives (level 1 and level 2 of one feature) returned once for level=None",
+            "wide: features with > 1000 direct children compared at levels 1/2/None",
+            "wide: level-2 relatives reached through a child numbered >= 1000 (file order) compared",
+            "interleaved: generators consumed while another generator of the same FeatureDB was alive",
+            "interleaved: nested loops with >= 2 outer items and a non-empty inner result",
+            "interleaved: schedules over >= 2 non-empty generators (one with >= 2 items)"]
 REQUIRED_CLASSES = ["ids=word", "ids=hostile", "Parent=comma list", "Parent=repeated keys", "order=children first",
-                    "graph: multi-parent", "graph: level-2 pairs", "graph: dangling Parent", "graph: shortcut (level 1 and 2)"]
+                    "graph: multi-parent", "graph: level-2 pairs", "graph: dangling Parent", "graph: shortcut (level 1 and 2)",
+                    "graph: two level-2 paths to one feature", "graph: wide (> 1000 direct children)"]
 ASSUMPTIONS = [
     "the reference model gvmon/models/hierarchy.py is a faithful reading of the statement: relatives are stored features "
     "only; level 2 = composition of two Parent edges; level None = union",
@@ -44,6 +59,8 @@ ASSUMPTIONS = [
     "iter_by_parent_childs(featuretype) is judged as [parent] + all children(parent) for every stored feature of that "
     "type, groups in any order (its level/order_by arguments are not exercised)",
     "every line carries an ID (auto-generated ids are C04's); Parent lists do not repeat a value; graphs are acyclic",
+    "interleaved generators: the database is not modified while they are alive; each generator is compared as a multiset "
+    "with the same call consumed alone (the statement fixes no order without order_by) and with the model",
 ]
 QUICK_SHARDS = 4
 THOROUGH_SHARDS = 16
@@ -61,15 +78,37 @@ def tag(case):
     return "hostile-id class: " if case.get("ids") == "hostile" else ""
 
 
+_WIDE = {}
+
+
+def graph_of(case):
+    if case["kind"] == "wide":
+        key = repr(sorted(case["wide"].items()))
+        if key not in _WIDE:
+            _WIDE.clear()
+            _WIDE[key] = G.wide_graph(case["wide"])
+        return _WIDE[key]
+    return case["graph"]
+
+
 def orders_of(case):
-    n = len(case["graph"]["nodes"])
+    n = len(graph_of(case)["nodes"])
     if case["orders"] == "all":
         return G.all_orders(n)
+    if case["kind"] == "wide":
+        return [G.order_of_spec(n, spec) for spec in case["orders"]]
     return case["orders"]
 
 
+def shown(case, oi, order, text):
+    """(order, text) as written into a violation: the small spec and the head of the text for wide graphs."""
+    if case["kind"] == "wide":
+        return case["orders"][oi], text[:600] + "... [%d lines: G.text_of(G.wide_graph(case['wide']), order)]" % len(order)
+    return order, text
+
+
 def execute(ctx, case):
-    g = case["graph"]
+    g = graph_of(case)
     nodes = g["nodes"]
     visible, lower, upper = H.gff3_triples(nodes)
     stored = [n["id"] for n in nodes]
@@ -77,6 +116,7 @@ def execute(ctx, case):
     first = None
     for oi, order in enumerate(orders_of(case)):
         table = one_import(ctx, case, oi, order, rel, lower, upper)
+        order = shown(case, oi, order, "")[0]
         for v in contracts.drain():
             ctx.violation(case, dict(v, why=tag(case) + "contract: " + str(v.get("why"))))
         if table is None:
@@ -87,7 +127,8 @@ def execute(ctx, case):
             ctx.violation(case, {"why": tag(case) + "the relation set depends on the order of the lines",
                                  "order_a": first[0], "order_b": order,
                                  "only_a": sorted(first[1] - table)[:10], "only_b": sorted(table - first[1])[:10],
-                                 "text_a": G.text_of(g, first[0]), "text_b": G.text_of(g, order)})
+                                 "text_a": None if case["kind"] == "wide" else G.text_of(g, first[0]),
+                                 "text_b": None if case["kind"] == "wide" else G.text_of(g, order)})
             return
         else:
             ctx.mon("line-order pairs with identical relation sets")
@@ -97,10 +138,11 @@ def one_import(ctx, case, oi, order, rel, lower, upper):
     """Import one line order; returns the relation set read from the table, or None after a violation."""
     import gffutils
 
-    g = case["graph"]
+    g = graph_of(case)
     nodes = g["nodes"]
     byid = {n["id"]: n for n in nodes}
     text = G.text_of(g, order)
+    full_order = order
     T = tag(case)
     src = None
     dbfn = ":memory:" if case.get("db", "memory") == "memory" else ctx.tmp(".db")
@@ -111,6 +153,7 @@ def one_import(ctx, case, oi, order, rel, lower, upper):
         data, from_string = src, False
     else:
         data, from_string = text, True
+    order, text = shown(case, oi, order, text)   # from here on: what is written into violation details
     sqltrace.reset()
     db = None
     try:
@@ -142,6 +185,11 @@ def one_import(ctx, case, oi, order, rel, lower, upper):
         ctx.mon("dangling Parent values (no error, no phantom)", len(dangling))
         # -- children()/parents() for every stored feature and level ----------------------------------------
         q = random.Random(case["qseed"] * 1009 + oi)
+        late2 = {}   # feature with > 1000 direct children -> level-2 relatives through its children number >= 1000
+        for x in byid:
+            if len(rel.children(x, 1)) > 1000:
+                kids = [nodes[i]["id"] for i in full_order if x in nodes[i]["parents"]]
+                late2[x] = set().union(*[rel.children(t, 1) for t in kids[1000:]])
         for x in byid:
             arg = x
             if q.random() < 0.25:
@@ -178,6 +226,17 @@ def one_import(ctx, case, oi, order, rel, lower, upper):
                             return None
                     if exp:
                         ctx.mon("non-empty relative sets compared")
+                    if level is None:
+                        ctx.mon("shortcut relatives (level 1 and level 2 of one feature) returned once for level=None",
+                                len(model(x, 1) & model(x, 2)))
+                    if x in late2 and name == "children":
+                        ctx.mon("wide: features with > 1000 direct children compared at levels 1/2/None")
+                        if level == 2:
+                            ctx.mon("wide: level-2 relatives reached through a child numbered >= 1000 (file order) compared",
+                                    len(late2[x]))
+        # -- several generators of this FeatureDB alive at once ------------------------------------------------
+        if not interleaved(ctx, case, db, q, rel, byid, order, text):
+            return None
         # -- featuretype / limit / order_by / reverse composed with the brute-force filter ---------------------
         nq = case.get("nqueries", 8)
         busy = [x for x in byid if rel.children(x) or rel.parents(x)] or list(byid)
@@ -220,6 +279,105 @@ def one_import(ctx, case, oi, order, rel, lower, upper):
                         os.unlink(os.path.join(tdir, name))
                     except OSError:
                         pass
+
+
+def interleaved(ctx, case, db, q, rel, byid, order, text):
+    """Generators of one FeatureDB consumed nested and on interleaved schedules: each yields its own full result."""
+    T = tag(case)
+    fns = {"children": (db.children, rel.children), "parents": (db.parents, rel.parents)}
+
+    def bad(why, **kw):
+        ctx.violation(case, dict({"why": T + why, "order": order, "text": text}, **kw))
+        return False
+
+    def compare(what, call, got, alone):
+        name, x, level, ft = call
+        exp = sorted(y for y in fns[name][1](x, level) if ft is None or byid[y]["type"] == ft)
+        ctx.mon("interleaved: generators consumed while another generator of the same FeatureDB was alive")
+        if sorted(got) != sorted(alone):
+            return bad("interleaved generators (%s): %s(x, level=%r) yields something else than when consumed alone with list()"
+                       % (what, name, level), x=x, featuretype=ft, got=got[:40], alone=alone[:40], n_got=len(got), n_alone=len(alone))
+        if sorted(got) != exp:
+            return bad("interleaved generators (%s): %s(x, level=%r) differs from the Parent graph" % (what, name, level),
+                       x=x, featuretype=ft, got=sorted(got)[:40], expected=exp[:40], n_got=len(got), n_expected=len(exp))
+        return True
+
+    def solo(call):
+        name, x, level, ft = call
+        return [f.id for f in fns[name][0](x, level=level, featuretype=ft)]
+
+    try:
+        # 1. nested loops: for t in children(x, 1): for e in children(t, 1) / parents(t)
+        wide = [x for x in byid if len(rel.children(x, 1)) >= 2]
+        deep = [x for x in wide if rel.children(x, 2)]
+        x = q.choice(deep or wide or list(byid))
+        if case["kind"] == "wide":
+            x = max(sorted(byid), key=lambda y: len(rel.children(y, 1)))
+        inner_calls = q.choice([["children"], ["children", "parents"], ["parents", "children"]])
+        plevel = q.choice([1, None])
+        alone = solo(("children", x, 1, None))
+        alone_inner = {}
+        for t in alone:
+            for nm in inner_calls:
+                c = (nm, t, 1 if nm == "children" else plevel, None)
+                alone_inner[c] = solo(c)
+        outer, inner = [], {}
+        for t in db.children(x, level=1):
+            outer.append(t.id)
+            arg = t if q.random() < 0.5 else t.id
+            for nm in inner_calls:
+                c = (nm, t.id, 1 if nm == "children" else plevel, None)
+                got = []
+                for e in fns[nm][0](arg, level=c[2]):
+                    got.append(e.id)
+                inner.setdefault(c, []).extend(got)
+        if not compare("outer loop of a nested loop", ("children", x, 1, None), outer, alone):
+            return False
+        for c, got in inner.items():
+            if not compare("inner loop of a nested loop", c, got, alone_inner.get(c, [])):
+                return False
+        if len(alone) >= 2 and any(inner.values()):
+            ctx.mon("interleaved: nested loops with >= 2 outer items and a non-empty inner result")
+        if len(alone) > 1000:
+            ctx.mon("wide: nested loops over > 1000 children, one or two inner generators each")
+        # 2. schedules over 2-4 live generators: zip-like round robin or random picks
+        cands = [(nm, y, lv) for y in byid for nm in fns for lv in LEVELS if fns[nm][1](y, lv)]
+        if len(cands) > 400:
+            cands = q.sample(cands, 400)
+        for _ in range(2):
+            k = q.choice([2, 2, 3, 4])
+            calls = []
+            for _ in range(k):
+                if cands and q.random() < 0.9:
+                    nm, y, lv = q.choice(cands)
+                else:
+                    nm, y, lv = q.choice(list(fns)), q.choice(list(byid)), q.choice(LEVELS)
+                ft = None
+                if q.random() < 0.2:
+                    ft = q.choice(sorted({byid[z]["type"] for z in fns[nm][1](y, lv)}) or ["exon"])
+                calls.append((nm, y, lv, ft))
+            alones = [solo(c) for c in calls]
+            gens = [fns[nm][0](y, level=lv, featuretype=ft) for nm, y, lv, ft in calls]
+            got = [[] for _ in calls]
+            live = list(range(k))
+            zipped = q.random() < 0.5
+            turn = 0
+            while live:
+                i = live[turn % len(live)] if zipped else q.choice(live)
+                turn += 1
+                try:
+                    got[i].append(next(gens[i]).id)
+                except StopIteration:
+                    live.remove(i)
+            for c, gt, al in zip(calls, got, alones):
+                if not compare("zip/round robin" if zipped else "random schedule", c, gt, al):
+                    return False
+            sizes = sorted(len(a) for a in alones if a)
+            if len(sizes) >= 2 and sizes[-1] >= 2:
+                ctx.mon("interleaved: schedules over >= 2 non-empty generators (one with >= 2 items)")
+    except Exception as ex:
+        return bad("interleaved generators raised %s" % type(ex).__name__, error=repr(ex))
+    return True
 
 
 def argument_query(ctx, case, db, q, rel, byid, busy, order, text):
@@ -283,7 +441,7 @@ def argument_query(ctx, case, db, q, rel, byid, busy, order, text):
 
 
 def classify(ctx, case):
-    g = case["graph"]
+    g = graph_of(case)
     nodes = g["nodes"]
     ids = {n["id"] for n in nodes}
     visible, lower, upper = H.gff3_triples(nodes)
@@ -293,7 +451,18 @@ def classify(ctx, case):
     pairs = {(p, c) for p, c, lv in visible if lv == 1}
     shortcut = any((p, c) in pairs for p, c, lv in visible if lv == 2)
     depth = 1 + max(n["layer"] for n in nodes)
-    for cond, name in ((multi, "graph: multi-parent"), (lvl2, "graph: level-2 pairs"), (dang, "graph: dangling Parent"),
+    l1 = [(p, c) for p, c, lv in visible if lv == 1]
+    kids = {}
+    for p, c in l1:
+        kids.setdefault(p, set()).add(c)
+    paths = {}
+    for a, b in l1:
+        for c in kids.get(b, ()):
+            paths[(a, c)] = paths.get((a, c), 0) + 1
+    twopaths = any(v > 1 for v in paths.values())
+    widest = max([len(v) for v in kids.values()] or [0])
+    for cond, name in ((twopaths, "graph: two level-2 paths to one feature"), (widest > 1000, "graph: wide (> 1000 direct children)"),
+                       (multi, "graph: multi-parent"), (lvl2, "graph: level-2 pairs"), (dang, "graph: dangling Parent"),
                        (shortcut, "graph: shortcut (level 1 and 2)"), (depth == 4, "graph: depth 4"),
                        (any(n["style"] == "comma" and len(n["parents"]) > 1 for n in nodes), "Parent=comma list"),
                        (any(n["style"] == "repeat" and len(n["parents"]) > 1 for n in nodes), "Parent=repeated keys")):
@@ -310,7 +479,12 @@ def children_first(nodes, order):
 
 def account(ctx, case):
     nontrivial = classify(ctx, case)
-    g = case["graph"]
+    g = graph_of(case)
+    if case["kind"] == "wide":
+        for spec in case["orders"]:
+            ctx.case(("wide", sorted(case["wide"].items()), spec), nontrivial, cls="line orders imported (wide graphs)",
+                     sample={"wide": case["wide"], "order": spec})
+        return
     canon = G.canonical(g)
     for order in orders_of(case):
         if children_first(g["nodes"], order):
@@ -331,8 +505,15 @@ def minimal_hostile(gene_id, flavour):
 def run(ctx):
     rng = ctx.rng
     thorough = ctx.tier == "thorough"
+    # 0. wide graphs: one feature with more than 1000 direct children (about 1 s per import)
+    for _ in range(ctx.budget(4, 16)):
+        case = {"kind": "wide", "ids": "word", "wide": G.wide_params(rng), "qseed": rng.randrange(10 ** 9),
+                "orders": [["forward"], rng.choice([["reverse"], ["shuffle", rng.randrange(10 ** 6)]])],
+                "nqueries": 6, "db": "file" if rng.random() < 0.25 else "memory", "input": "path"}
+        execute(ctx, case)
+        account(ctx, case)
     # 1. word-like ids (first: its violations are reported before those of the hostile class)
-    for i in range(ctx.budget(900, 9600)):
+    for i in range(ctx.budget(740, 9000)):
         g = G.graph(rng)
         n = len(g["nodes"])
         every = n > 1 and (n <= 5 or (n == 6 and i % 16 == 0)) if thorough else (1 < n <= 5 and i % 6 == 0)
@@ -351,7 +532,7 @@ def run(ctx):
             ctx.classes["hostile id: " + fl] += 1
             execute(ctx, case)
             account(ctx, case)
-    for _ in range(ctx.budget(300, 3200)):
+    for _ in range(ctx.budget(250, 3000)):
         g = G.graph(rng, max_nodes=8)
         flavours = G.make_hostile(rng, g)
         if not flavours:
